@@ -1,6 +1,6 @@
 """EQCOVER, HASH-IN-EQ, HASHCOVER, CLONECOVER, HASHDET  (C14, C20) — field-coverage of Eq/Hash/Clone."""
 from ..core import RuleResult
-from ..ir import walk, access_paths
+from ..ir import walk, access_paths, inline, strip
 from .. import anchors
 from .replace_cache import groups
 
@@ -167,6 +167,27 @@ def rule_clonecover(ctx):
         if cl.d.get('derived'):
             continue
         aggs = [(pt, s) for pt, s in cl.points() if s['k'] == 'assign' and s['r']['k'] == 'agg' and s['r'].get('path') == adt]
+        if not aggs:
+            # built through a private constructor: look at the aggregate it returns, with its parameters substituted
+            ret = inline(f, cl.expr_of_local(0), depth=2)
+            lits = [x for x in strip(ret, through_calls=set()) if x[0] == 'agg' and x[2] == adt]
+            if lits:
+                for lit in lits:
+                    for n, e in zip(lit[4], lit[5]):
+                        from_self = any(x[0] == 'field' and x[2] == n and x[3] == adt for x in walk(e))
+                        if (adt, n) in cache:
+                            fresh = e[0] == 'call' and e[1].rsplit('::', 1)[-1] in ('default', 'new') and \
+                                not any(x[0] == 'field' for x in walk(e))
+                            ok = from_self or fresh
+                            what = 'cache field %s is fresh or copied from self' % n
+                        else:
+                            ok = from_self
+                            what = 'data field %s is copied from self.%s' % (n, n)
+                        r.site('%s::clone (via constructor): %s' % (adt, what), cl.span(), 'ok' if ok else 'violation')
+                        if not ok:
+                            r.violation('%s:%s' % (adt, n), cl.span(), cl.path,
+                                        'clone does not copy field `%s` from the original: the clone is not observationally identical' % n)
+                continue
         if not aggs:
             r.site('%s: hand-written clone' % adt, cl.span(), 'violation')
             r.violation('%s:no-aggregate' % adt, cl.span(), cl.path, 'clone does not build the value field by field (unrecognised idiom)',
